@@ -43,6 +43,7 @@ def arenaStep (st : ArenaState) (ts : List String) : ArenaState × List String :
     let s' := tids.foldl finishThread s
     ({ arena := s'.arena, work := [] }, lines)
   | "stress" :: _ => (st, [])
+  | ["weakhash"] => (st, [])   -- the real hash is degraded to a constant for this case; the model's hash is arbitrary
   | [] => (st, [])
   | _ => (st, ["bad-op"])
 
